@@ -111,7 +111,8 @@ CLAIMED["C10"] = ("Partial proof at the protocol-glue level, over ASSUMED abstra
  "SM9 Verify returns true only for a 65-byte uncompressed S, h in [1, n-1] and h == H2(M || w) with w = e(S, P_uid) * g^h, and hashes exactly M followed by the 384-byte encoding of w; "
  "Sign computes w = g^r for the sampled r (C12), h = H2(M || w), l = (r - h) mod n with a retry on l == 0, S = [l]dsA and returns the 32-byte encoding of h; the decryption core splits K into "
  "K1 || K2 at the option's key size, MACs C2 || K2, compares with C3 in constant time and decrypts with K1 only after a successful comparison; the raw and ASN.1 ciphertext parsers, block-mode "
- "options and key decoders return a value or an error for every input (shared with C13). Not decided: completeness (honest signatures/ciphertexts verify/decrypt - pairing algebra), key exchange, "
+ "options and key decoders return a value or an error for every input (shared with C13); the CBC and ECB decrypt options accept every well-formed length (IV plus at least one whole block, resp. a positive multiple of the block size): such an input always reaches the unpadding step and the result is exactly Unpad's; "
+ "UnwrapKey writes nothing the caller can see (not the ciphertext its C1 slice points into). Not decided: completeness (honest signatures/ciphertexts verify/decrypt - pairing algebra), key exchange, "
  "the hash-to-range function body (H1/H2 over SM3; SetOverflowedBytes assumed), portability across CPU tiers.",
  "Trusted: internal/sm9/bn256 group and pairing operations (ghost-valued contracts), internal/bigmod, hash (H1/H2), GenerateUserPublicKey, master-key ScalarBaseMult, cryptobyte, EncrypterOpts interface contracts.",
  "DESIGN.md §0.2, §4 C10")
@@ -119,8 +120,8 @@ CLAIMED["C10"] = ("Partial proof at the protocol-glue level, over ASSUMED abstra
 CLAIMED["C08"] = ("Partial proof of the SM2 key-agreement glue in sm2/sm2_keyexchange.go over ASSUMED integer and curve arithmetic (ghost values of big.Int; ECMUL/ECADD/ECBASE and bitwise AND uninterpreted): "
  "avf computes x~ = 2^w + (x & (2^w - 1)); mqv computes t = (d + x~_own * r) mod n and V = [t](P_peer + [x~_peer] R_peer) from exactly those operands; the peer's ephemeral point is stored and used only after the "
  "on-curve check (the scalar multiplication's precondition); own ephemeral point = [r]G; failure when V is the point at infinity; the shared key is KDF(xV || yV || Z_initiator || Z_responder) of the configured length "
- "for both roles (byte-level layout of the KDF input proved through the appends); a key is returned only after the optional confirmation value compared equal in constant time. "
- "Not decided: that both parties derive the same V (group algebra), the ecdh package's second implementation and their agreement, the confirmation hash layout (sign is a frame-only assumption), ZA computation.",
+ "for both roles (byte-level layout of the KDF input proved through the appends); a key is returned only after the optional confirmation value compared equal in constant time; the byte-oriented twin ecdh.(*sm2Curve).sm2mqv returns a shared point only through NewPublicKey (the place that refuses the point at infinity). "
+ "Not decided: that both parties derive the same V (group algebra), the rest of the ecdh package's second implementation and the agreement of the two, the confirmation hash layout (sign is a frame-only assumption), ZA computation.",
  "Trusted: math/big and crypto/elliptic ghost-valued contracts, (*KeyExchange).sign, sm3.Kdf length contract, bigIntToBytes/FillBytes value contract.",
  "DESIGN.md §0.2, §4 C08")
 
